@@ -1,6 +1,7 @@
 package main
 
 import (
+	"github.com/mdlayher/packet"
 	"errors"
 	"fmt"
 	"math/rand"
@@ -17,9 +18,38 @@ func init() { gens["c18"] = genC18 }
 type scriptConn struct {
 	frames [][]byte
 	sent   [][]byte
+	kind   int // which addresses it reports (0: not chosen yet)
 }
 
 var errScriptEnd = errors.New("script exhausted")
+
+// What the socket underneath reports as its own address and as the sender of a frame is the link layer's business: a packet
+// socket reports hardware addresses (none on lo / tun / ppp; the host's own when the server runs on the same host), other
+// transports report what they like. scriptAddrs cycles through the combinations, one per connection.
+var scriptConns int
+
+func (s *scriptConn) addrs() (local, from net.Addr) {
+	if s.kind == 0 {
+		scriptConns++
+		s.kind = 1 + scriptConns%7
+	}
+	macA, macB := net.HardwareAddr{2, 0, 0, 0, 0, 0xa}, net.HardwareAddr{2, 0, 0, 0, 0, 0xb}
+	switch s.kind {
+	case 1:
+		return &net.IPAddr{}, &net.IPAddr{}
+	case 2:
+		return &packet.Addr{HardwareAddr: macA}, &packet.Addr{HardwareAddr: macB}
+	case 3:
+		return &packet.Addr{HardwareAddr: macA}, &packet.Addr{HardwareAddr: macA} // the server is on this host
+	case 4:
+		return &packet.Addr{}, &packet.Addr{} // an interface without hardware addresses
+	case 5:
+		return &packet.Addr{HardwareAddr: net.HardwareAddr{0, 0, 0, 0, 0, 0}}, &packet.Addr{HardwareAddr: net.HardwareAddr{0, 0, 0, 0, 0, 0}} // lo
+	case 6:
+		return &net.UDPAddr{Port: 68}, &net.UDPAddr{IP: net.IPv4(10, 0, 0, 9), Port: 67}
+	}
+	return nil, nil
+}
 
 func (s *scriptConn) ReadFrom(b []byte) (int, net.Addr, error) {
 	if len(s.frames) == 0 {
@@ -27,17 +57,42 @@ func (s *scriptConn) ReadFrom(b []byte) (int, net.Addr, error) {
 	}
 	f := s.frames[0]
 	s.frames = s.frames[1:]
-	return copy(b, f), &net.IPAddr{}, nil
+	_, from := s.addrs()
+	return copy(b, f), from, nil
 }
 func (s *scriptConn) WriteTo(b []byte, a net.Addr) (int, error) {
 	s.sent = append(s.sent, append([]byte(nil), b...))
 	return len(b), nil
 }
 func (s *scriptConn) Close() error                       { return nil }
-func (s *scriptConn) LocalAddr() net.Addr                { return &net.IPAddr{} }
+func (s *scriptConn) LocalAddr() net.Addr                { l, _ := s.addrs(); return l }
 func (s *scriptConn) SetDeadline(time.Time) error      { return nil }
 func (s *scriptConn) SetReadDeadline(time.Time) error  { return nil }
 func (s *scriptConn) SetWriteDeadline(time.Time) error { return nil }
+
+// readTimed: a read on the raw layer over a scripted socket returns at once (a frame, or the script's end); one that is
+// still running after five seconds is stuck in the library (reported as such: no frame may keep the reader busy for ever)
+var rawHangs int
+
+func readTimed(c net.PacketConn, b []byte) (n int, addr net.Addr, err error, hung bool) {
+	type res struct {
+		n    int
+		addr net.Addr
+		err  error
+	}
+	ch := make(chan res, 1)
+	go func() {
+		n, a, e := c.ReadFrom(b)
+		ch <- res{n, a, e}
+	}()
+	select {
+	case r := <-ch:
+		return r.n, r.addr, r.err, false
+	case <-time.After(5 * time.Second):
+		rawHangs++
+		return 0, nil, errors.New("read did not return"), true
+	}
+}
 
 func endpoint(ip net.IP, port int) map[string]any {
 	return map[string]any{"ip": ip4(ip), "port": port}
@@ -93,8 +148,42 @@ func (fs frameSpec) build(rng *rand.Rand) []byte {
 	h[9] = byte(fs.proto)
 	copy(h[12:16], fs.src.To4())
 	copy(h[16:20], fs.dst.To4())
-	for i := 20; i < hl; i++ {
-		h[i] = byte(rng.Intn(256)) // IP options
+	// IP options: what routers and hosts put there (no-operation, end of list, record route, timestamp, router alert,
+	// security, loose / strict source route), well formed and not (length octets of 0 and 1, an option that runs past the
+	// header), or anything at all - none of it says whose datagram this is
+	if hl > 20 {
+		opt := h[20:hl]
+		switch rng.Intn(4) {
+		case 0:
+			for i := range opt {
+				opt[i] = byte(rng.Intn(256))
+			}
+		case 1:
+			for i := range opt {
+				opt[i] = 1
+			}
+		default:
+			for i := 0; i < len(opt); {
+				t := byte(pick(rng, 1, 1, 0, 7, 68, 148, 130, 131, 137, 0x94, rng.Intn(256)))
+				opt[i] = t
+				if t == 0 || t == 1 {
+					i++
+					continue
+				}
+				if i+1 >= len(opt) {
+					break
+				}
+				l := pick(rng, 3, 4, 7, 11, len(opt)-i, 0, 1, 2, 40)
+				opt[i+1] = byte(l)
+				for j := i + 2; j < i+l && j < len(opt); j++ {
+					opt[j] = byte(rng.Intn(256))
+				}
+				if l < 2 {
+					l = 2 + rng.Intn(3)
+				}
+				i += l
+			}
+		}
 	}
 	c := ^sum16(h)
 	h[10], h[11] = byte(c>>8), byte(c)
@@ -331,7 +420,10 @@ func genC18(o *Out, rng *rand.Rand, tier string) {
 				}()
 				for {
 					b := make([]byte, 1500)
-					n, addr, err := c.ReadFrom(b)
+					n, addr, err, hung := readTimed(c, b)
+						if hung {
+							rec["hang"] = true
+						}
 					if err != nil {
 						rec["end"] = errors.Is(err, errScriptEnd)
 						return
@@ -347,6 +439,9 @@ func genC18(o *Out, rng *rand.Rand, tier string) {
 	// ---- read direction: the caller's buffer is exactly as large as the payload (the smallest buffer the property speaks
 	// about), whatever else the frame carries around it: IP options up to the 60-byte header, link-layer padding
 	for _, plen := range []int{0, 1, 8, 40, 240, 300, 548} {
+		if rawHangs >= 3 {
+			break
+		}
 		for _, ihl := range []int{5, 6, 10, 15} {
 			for _, pad := range []int{0, 1, 6, 18, 40, 46, 60} {
 				fs := frameSpec{version: 4, ihl: ihl, proto: 17, src: net.IPv4(10, 0, 0, 9).To4(), dst: net.IPv4bcast.To4(), sport: 67, dport: 68,
@@ -364,7 +459,10 @@ func genC18(o *Out, rng *rand.Rand, tier string) {
 					}()
 					for {
 						b := make([]byte, plen)
-						n, addr, err := c.ReadFrom(b)
+						n, addr, err, hung := readTimed(c, b)
+						if hung {
+							rec["hang"] = true
+						}
 						if err != nil {
 							rec["end"] = errors.Is(err, errScriptEnd)
 							return
@@ -379,7 +477,7 @@ func genC18(o *Out, rng *rand.Rand, tier string) {
 		}
 	}
 	// ---- read direction: sequences of frames
-	for i := 0; i < nR; i++ {
+	for i := 0; i < nR && rawHangs < 3; i++ { // (every stuck read leaves a goroutine spinning: three are evidence enough)
 		var boundIP net.IP
 		if rng.Intn(3) == 0 {
 			boundIP = net.IPv4(10, 0, 0, byte(1+rng.Intn(3)))
@@ -416,7 +514,10 @@ func genC18(o *Out, rng *rand.Rand, tier string) {
 			}()
 			for {
 				b := make([]byte, buflen)
-				n, addr, err := c.ReadFrom(b)
+				n, addr, err, hung := readTimed(c, b)
+						if hung {
+							rec["hang"] = true
+						}
 				if err != nil {
 					rec["end"] = errors.Is(err, errScriptEnd)
 					return
